@@ -37,9 +37,14 @@ def Params.remove (p : Params) (k : String) : Params := p.filter (·.1 != k)
 def collectParams (id : String) : List (List Char) → Params → Except String Params
   | [], acc => .ok acc
   | p :: rest, acc =>
+    -- a parameter given twice is rejected (finding F74, repaired: the later value replaced the earlier one unchecked)
     match splitOnChar ':' p with
-    | [k] => collectParams id rest (acc.insert (String.ofList k) "")
-    | [k, v] => collectParams id rest (acc.insert (String.ofList k) (String.ofList v))
+    | [k] =>
+      if (acc.get (String.ofList k)).isSome then .error s!"invalid format argument `{id},{String.ofList p}`"
+      else collectParams id rest (acc.insert (String.ofList k) "")
+    | [k, v] =>
+      if (acc.get (String.ofList k)).isSome then .error s!"invalid format argument `{id},{String.ofList p}`"
+      else collectParams id rest (acc.insert (String.ofList k) (String.ofList v))
     | _ => .error s!"invalid format argument `{id},{String.ofList p}`"
 
 /-- the fields of one variant, in order (`get_arg_usize`) -/
